@@ -448,6 +448,13 @@ def run_contract_paths(program, registry, con, active_cases=None, prefix=None, f
                 g = cl.fn(f)
             except PathDead:
                 continue
+            except (Unsupported, PyExc, PathEnd):
+                raise
+            except Exception as e:  # noqa -- the clause does not fit the shape of value this code produced
+                if type(e).__name__ == "NotPure":
+                    raise
+                raise Unsupported("contract clause %s cannot be evaluated on the values this code produces (%s: %s)"
+                                  % (cl.name, type(e).__name__, str(e)[:120]))
             oname = "%s/%s" % (con.qualname, cl.name)
             act = [c for c in (active_cases or {}).get(oname, []) if c in cl.cases]
             if act:
